@@ -34,7 +34,7 @@ try:
     if ok:
         out = os.path.join('/verif/seeded', sid)
         os.makedirs(out, exist_ok=True)
-        diff = subprocess.run(['git', '-C', wt, 'diff', '--', 'seismic_zfp'], capture_output=True, text=True).stdout
+        diff = subprocess.run(['git', '-C', wt, 'diff', 'HEAD', '--', 'seismic_zfp'], capture_output=True, text=True).stdout
         open(os.path.join(out, 'patch.diff'), 'w').write(diff)
         shutil.copy(demo, os.path.join(out, 'demo.py'))
         meta = {'id': sid, 'breaks_property': prop, 'needs_to_manifest': open(note).read() if os.path.exists(note) else '',
